@@ -7,8 +7,8 @@ input_order_irrelevant, unreferenced_input_irrelevant on the IR model of Consoli
 loop over a labelled heap, as corollaries of C18 (copy table regenerated from /repo on every run).
 Correspondence (harness/verifh_pipe, the REAL pipeline):
   * `consolidate`: parsed inputs and the result of Schemas.Consolidate as Gallina terms; Coq
-    compares with the model (MISMATCH) and evaluates union-or-conflict on the implementation's
-    own result (PROPFAIL);
+    compares with the model - including the order of the returned packages, first appearance -
+    (MISMATCH) and evaluates union-or-conflict on the implementation's own result (PROPFAIL);
   * metamorphic runs of codegen.Pipeline.Run: language subsets vs all languages, input
     permutations, an extra package nothing references, same-package inputs (disjoint / equal /
     conflicting);
@@ -315,7 +315,7 @@ def run(ctx, verdict, replay=None, model_ok=True):
              {"status": cres[i]["status"], "err": cres[i].get("err_text"), "inputs": cres[i]["inputs"][:2000], "output": cres[i]["output"][:2000]})
     for i in mm:
         if i not in pf:
-            unexplained.append({"job": {"spec": variants[i][3]}, "what": "Model/Pipeline.v consolidate <> Schemas.Consolidate (up to package order)",
+            unexplained.append({"job": {"spec": variants[i][3]}, "what": "Model/Pipeline.v consolidate <> Schemas.Consolidate (schemas and their order)",
                                 "impl_status": cres[i]["status"], "inputs": cres[i]["inputs"][:1500]})
 
     # ---------------- mutation snapshots (unmodified build) and context sharing (forced, sorted)
